@@ -250,3 +250,53 @@ def run(ctx):
                 if kind == "index" and "map" not in desc:
                     why = why or None
                 r.check(why is not None, "%s/%s" % (tag, kind), b.loc(line), "%s %s: %s" % (kind, desc[:60], why), "potential panic (%s %s) in a notification handler, not in the allow-list" % (kind, desc[:80]))
+
+    with ctx.rule("C08.R6", "T5", "configuration flags reach the notification handlers in the right position at every call site", floor=4) as r:
+        # Several handlers take adjacent flags of the same type (events_when_not_synced, terminate_on_unlinked, dispatch ...).
+        # At every call of a crate-local function, a named argument whose name is the name of a *different* parameter of the callee
+        # is a swapped argument; and all call sites of one callee inside one task body must pass the same expression for a flag.
+        import re
+        def last_name(d):
+            m_ = re.search(r"([A-Za-z_][A-Za-z0-9_]*)$", d)
+            return m_.group(1) if m_ else None
+        n = 0
+        for crate, pref in ((dl, "swimos_downlink::task::"), (ag, "swimos_agent::downlink_lifecycle"), (ag, "swimos_agent::agent_model::downlink::hosted")):
+            by_def = {b.defpath: b for b in crate.all_bodies()}
+            for b in crate.all_bodies():
+                if pref not in b.defpath or "::tests" in b.defpath:
+                    continue
+                sites = {}
+                for c in b.calls:
+                    cal = by_def.get(c.defpath)
+                    if cal is None or cal.argc < 2 or c.exp:
+                        continue
+                    pnames = [cal.var_name(i) for i in range(1, cal.argc + 1)]
+                    if len([p for p in pnames if p]) < 2:
+                        continue
+                    anames = []
+                    for k, a in enumerate(c.args[:cal.argc]):
+                        d = describe_operand(b, a)
+                        anames.append((d, last_name(d) if re.match(r"^[A-Za-z_][A-Za-z0-9_.]*$", d) else None))
+                    flagged = False
+                    for k, (d, an) in enumerate(anames):
+                        if an and pnames[k] and an != pnames[k] and an in pnames:
+                            flagged = True
+                            r.bad("%s/%s(arg %d)" % (b.defpath.split("::{")[0].split("::")[-1], c.name, k), c.loc(),
+                                  "argument `%s` is passed for parameter `%s` of %s, which has another parameter called `%s`: swapped arguments (the two flags change places at this call site only)" % (d, pnames[k], c.name, an))
+                    named = [(k, an) for k, (d, an) in enumerate(anames) if an and pnames[k] and an in pnames]
+                    if named and not flagged:
+                        n += 1
+                        ctx.saw(b)
+                        r.ok("%s/%s@%s" % (b.defpath.split("::{")[0].split("::")[-1], c.name, "+".join(pnames[k] for k, _ in named)), c.loc(), "named arguments match the callee's parameter names (%s)" % ", ".join(an for _, an in named))
+                    sites.setdefault(c.defpath, []).append([d for d, _ in anames])
+                for dp, lst in sites.items():
+                    if len(lst) > 1:
+                        cal = by_def[dp]
+                        for k in range(min(len(x) for x in lst)):
+                            vals = {x[k] for x in lst}
+                            pn = cal.var_name(k + 1)
+                            if pn and all(re.match(r"^[A-Za-z_][A-Za-z0-9_.]*$", v) and v not in ("True", "False") for v in vals) and all("config" in v for v in vals):
+                                r.check(len(vals) == 1, "%s/%s/param-%s-same-at-all-sites" % (b.defpath.split("::{")[0].split("::")[-1], dp.split("::")[-1], pn), where(b), "every call passes %s for `%s`" % (sorted(vals)[0], pn),
+                                        "the call sites of %s pass different values for `%s`: %s" % (dp.split("::")[-1], pn, sorted(vals)))
+        if n < 2:
+            raise AnchorMissing("expected >= 2 call sites with named flag arguments, found %d" % n)
